@@ -706,11 +706,14 @@ pub fn olpc_canon(v: &serde_json::Value) -> Result<Vec<u8>, String> {
     Ok(data)
 }
 
+// (the two digest helpers need aws-lc, which Miri cannot run: not part of the `pure` build of miri-cjson)
+#[cfg(not(feature = "pure"))]
 pub fn sha256(b: &[u8]) -> Vec<u8> {
     aws_lc_rs::digest::digest(&aws_lc_rs::digest::SHA256, b)
         .as_ref()
         .to_vec()
 }
+#[cfg(not(feature = "pure"))]
 pub fn sha256_hex(b: &[u8]) -> String {
     hex::encode(sha256(b))
 }
